@@ -78,13 +78,18 @@ def expand(reqs, threads=None):
     inp = "\n".join(json.dumps(r) for r in reqs) + "\n"
     env = dict(os.environ)
     env["DX_THREADS"] = str(threads or NCPU)
-    p = subprocess.run([b["expand"]], input=inp, stdout=subprocess.PIPE, stderr=subprocess.PIPE,
-                       text=True, env=env)
+    try:
+        p = subprocess.run([b["expand"]], input=inp, stdout=subprocess.PIPE, stderr=subprocess.PIPE,
+                           text=True, env=env, timeout=3600)
+    except subprocess.TimeoutExpired:
+        raise ToolError("dx-expand did not finish within an hour")
     if p.returncode != 0:
         raise ToolError("dx-expand failed: " + p.stderr[-2000:])
     out = [json.loads(l) for l in p.stdout.splitlines() if l.strip()]
     if len(out) != len(reqs):
         raise ToolError("dx-expand answered %d of %d requests" % (len(out), len(reqs)))
+    if any(r.get("class") == "not_run" for r in out):
+        raise ToolError("dx-expand: every worker was stuck; %d requests were not run" % sum(1 for r in out if r.get("class") == "not_run"))
     return out
 
 
@@ -102,7 +107,10 @@ def rustc(src, out, emit="link", crate_type="bin", extra=None, cwd=None, deny_wa
     cmd += ["-o", out, src]
     if extra:
         cmd += extra
-    p = subprocess.run(cmd, stdout=subprocess.PIPE, stderr=subprocess.PIPE, text=True, cwd=cwd)
+    try:
+        p = subprocess.run(cmd, stdout=subprocess.PIPE, stderr=subprocess.PIPE, text=True, cwd=cwd, timeout=1800)
+    except subprocess.TimeoutExpired:
+        raise ToolError("rustc did not finish within 30 minutes on %s (a macro expansion that does not terminate?)" % src)
     diags = []
     for l in p.stderr.splitlines():
         if l.startswith("{"):
